@@ -267,6 +267,10 @@ func replayScaled(sc *scn, kc int) (res child.Result, nb1, nb2 int) {
 		detail["blocks"] = [2]int{nb1, nb2}
 		return child.Fail("diff/events/"+kind+"/"+feat, detail), nb1, nb2
 	}
+	if kind, detail := ReadBackModified(cacheDB, t1, t2, evs); kind != "" {
+		detail["variant"] = variant
+		return child.Fail("diff/modified-row-pair/"+kind+"/"+feat, detail), nb1, nb2
+	}
 	return child.Pass(""), nb1, nb2
 }
 
@@ -399,6 +403,11 @@ func replayRec(i int, raw []byte) child.Result {
 	// side channel to the driver, which assembles the trace file (one reset line
 	// before every pair) for TraceDiff.tla
 	child.Emit(ev)
+	if derr == nil {
+		if kind, detail := ReadBackModified(db, t1, t2, evs); kind != "" {
+			return child.Fail("diff/modified-row-pair/"+kind+"/recorded", detail)
+		}
+	}
 	nb1, nb2 := len(t1.Tbl.Blocks), len(t2.Tbl.Blocks)
 	keysDiffer := false
 	for j := range ev.T1 {
